@@ -58,6 +58,10 @@ def orderProps (nkeys : Nat) (pre post : MState) (e : Event) (field : String) : 
     if ageOut then ["C14"]
     else if victimDiff || countDiff || countOut then ["C11", "C14"] else []
   | .tlru | .utlru => if victimDiff then (if hadExpired then ["C16"] else ["C10"]) else []
+  -- rr: the model is fed the draws the harness mirrors; a first difference at an insert call (another victim, or -
+  -- inside a range - what follows from another victim) may mean the implementation drew differently: marked; the
+  -- script is then judged by the acceptor (any resident is a legal victim) and the spread probe
+  | .rr => if isInsert e.op then ["RRDRAW"] else []
   | _ => []
 
 /-- compare one event with the model's step; `none` = agree -/
